@@ -7,6 +7,7 @@
 // snapshot-after-2, equal output of the two renders, and (for filter pairs) that the value obtained
 // from the first filter looks the same before and after the second filter ran.
 // Family 6 (big.go) does the same with containers of more than 50 elements that the program only reads.
+// Family 7 (meth.go) does the same with struct values whose pointer-receiver methods have side effects.
 package main
 
 import (
@@ -296,6 +297,7 @@ type program struct {
 	noOut   bool              // output may legitimately differ between two renders (clock)
 	touches string            // what the program is about (class label)
 	big     *bigSpec          // family 6: the context is one big container (big.go) instead of mkContext()
+	meth    bool              // family 7: the context holds struct values with pointer-receiver methods (meth.go)
 }
 
 var filters = []string{"default", "escape", "e", "upper", "lower", "trim", "raw", "length", "count", "join", "split", "date", "url_encode", "capitalize", "title",
@@ -394,6 +396,7 @@ func programs(thorough bool, add func(program)) {
 	}
 	collisionPrograms(add)
 	bigPrograms(thorough, add)
+	methPrograms(thorough, add)
 	chainPrograms(thorough, add)
 }
 
@@ -597,10 +600,14 @@ func runProgram(p program) *vlib.Outcome {
 	var before string
 	if p.big != nil {
 		ctx, before = mkBigContext(*p.big), pristineBig(*p.big)
+	} else if p.meth {
+		ctx, before = mkMethContext(), pristineMeth()
 	} else {
 		ctx, before = mkContext(), pristine()
 	}
+	ptrCalls, valCalls = 0, 0
 	out1, err1 := e.Render("t", ctx)
+	ptr1, val1 := ptrCalls, valCalls
 	after1 := snapshot(ctx)
 	out2, err2 := e.Render("t", ctx)
 	after2 := snapshot(ctx)
@@ -610,6 +617,19 @@ func runProgram(p program) *vlib.Outcome {
 	}
 	o.Nontrivial = err1 == nil
 	o.Class = p.family + "/" + p.touches + "/" + res
+	if p.meth { // non-trivial: the engine really called a method of the caller's type
+		o.Nontrivial = err1 == nil && ptr1+val1 > 0
+		o.Counters["method_calls_pointer_receiver"], o.Counters["method_calls_value_receiver"] = int64(ptr1), int64(val1)
+		switch {
+		case ptr1 > 0:
+			o.Class += "/ptr-method"
+			o.Counters["programs_meth_calling_pointer_method"] = 1
+		case val1 > 0:
+			o.Class += "/value-method"
+		default:
+			o.Class += "/no-method"
+		}
+	}
 	detail := map[string]interface{}{"template": p.main, "others": p.others}
 	o.Detail = detail
 	if after1 != before {
@@ -642,7 +662,7 @@ func main() {
 	vlib.Main(vlib.Spec{
 		ID:    "C18",
 		Level: "exploration",
-		Rule: "every program of six families — (1) each of the 31 built-in filters x 17 (thorough 38) argument shapes x 41 value expressions, printed and assigned-then-merged/sorted/reversed; " +
+		Rule: "every program of seven families — (1) each of the 31 built-in filters x 17 (thorough 38) argument shapes x 41 value expressions, printed and assigned-then-merged/sorted/reversed; " +
 			"(2) every ordered pair of 15 x 14 (thorough 26 x 26) collection filters on each value expression, the intermediate value observed before and after the second filter; " +
 			"(3) 28 scope programs per value expression (set / loop variable / include with, only / macro parameter / import named like a caller's key, functions merge, max, min, cycle, slice window then merge); " +
 			"(4) name collisions: 27 programs per top-level key K of the context in which K is an import alias, from-import alias, imported macro name, set target, loop key/value variable, macro name, macro parameter, block name (also through extends) or include-with key, " +
@@ -650,12 +670,17 @@ func main() {
 			"(5) filter chains in one expression: every ordered pair of 38 (thorough 50) filter instances covering all 31 filters, printed (thorough: also assigned, as macro/function argument, as for-sequence), every ordered pair of the 14 collection instances in those other positions, " +
 			"and every ordered triple of 10 (thorough 14) collection instances (default, raw, slice, first, last, sort, reverse, merge, keys, join) in the positions print, set, argument, for-sequence and held (applied to a value obtained from a filter earlier, observed before and after); " +
 			"(6) BIG containers that are only read: 35 value expressions over 20 containers ([]string, []int, []float64, []int64, untyped lists of strings / ints / mixed, named slices, array, pointer to slice, four map types, nested map, struct, pointer to struct, list of maps, list of lists) of 51, 64 and 200 elements (thorough: also 50, 52, 65, 100, 300, and 51 / 200 in ascending and descending order), unsorted with duplicates and spare capacity, " +
-			"x (16 probes x in / not in x 4 positions; 3 probes x in / not in on the result of 11 filters, inline and held; 48 read programs: first, last, length, join, keys, for, index, comparisons, max, min, cycle, tests, slices, include, macro; all 38 (50) filter instances printed and held-then-tested; every ordered pair of 10 (14) collection filters printed, thorough also held) — " +
+			"x (16 probes x in / not in x 4 positions; 3 probes x in / not in on the result of 11 filters, inline and held; 48 read programs: first, last, length, join, keys, for, index, comparisons, max, min, cycle, tests, slices, include, macro; all 38 (50) filter instances printed and held-then-tested; every ordered pair of 10 (14) collection filters printed, thorough also held); " +
+			"(7) struct VALUES with pointer-receiver methods that count, append and flag (Touch, Add, Mark, Sub.Inc, Order.Visit): 20 container expressions ([]Line, named slice, array, pointer to array / slice, map[string]Line, map[int]Line, untyped list and map, and those as fields of a struct value, of a pointed-to struct and of a map element) " +
+			"x 31 (thorough 110) access patterns (for value / key-value / twice / nested / with set / else / apply, index 0, 1, 'k', attribute, first, last, cycle, held in set / list / hash literal, macro and imported macro parameter, include with (only), element passed to macro / include, through 8 (17) filters, thorough through every pair of 8) " +
+			"x 10 bodies (each of Touch, Add, Mark, value-receiver Bump, Label, field Name; filters on lists a method returns; nested loop over Subs; method results in conditions and as filter / function arguments; in for and index 0 (thorough: everywhere) also all 36 ordered pairs of the six), " +
+			"11 single struct-value expressions (in the context, field of a struct value / of a pointed-to struct, map element) x 9 patterns x 46 bodies, 4 containers of Order values x 7 programs x 10 bodies, 7 programs on Order values and plain reads, and the caller's own pointers (*Line, []*Line) with value-receiver methods and fields only — " +
 			"rendered twice on a fresh engine with a fresh context of slices with sentinel-filled spare capacity, arrays, typed/untyped maps, structs, pointers nested two deep; " +
-			"non-trivial = the program renders without error (the filters really ran on the data)",
+			"non-trivial = the program renders without error (the filters really ran on the data); in family 7: and the engine called at least one method of the caller's types",
 		Assumptions: []string{
 			"the snapshot covers everything reachable from the context by reflection, including the spare capacity of every slice and unexported struct fields; identity of backing arrays (aliasing that is never written) is not observed",
-			"methods of caller types are not called by the generated programs (a pointer-receiver method may of course modify its receiver)",
+			"family 7 calls pointer-receiver methods only where the caller stored struct VALUES (elements, fields, map values, the context entry itself): there the engine has to work on a copy; a pointer-receiver method is never called on a receiver the caller stored as a pointer (*T, []*T), which may of course modify it",
+			"the methods of family 7 change only what a shallow copy of the struct protects (scalar fields, a slice field with len == cap that is appended to); a method that writes through a slice or map field would reach the caller's data from any copy and says nothing about the engine",
 			"the clause about concurrent renders follows from this property (shared data is only read) together with C02; it is not explored here",
 			"output of the date filter is not compared between the two renders (clock)",
 		},
